@@ -480,3 +480,13 @@ Proof.
   destruct (0 =? y) eqn:E0; [apply Z.eqb_eq in E0; lia|].
   destruct (3 =? y) eqn:E1; [apply Z.eqb_eq in E1; lia|reflexivity].
 Qed.
+
+(* cells at column indices >= the terminal width (a float overhanging the right
+   edge) are allowed: wf_screen says nothing about columns *)
+Lemma wf_example_overhang :
+  wf_screen 2 2 (mks 1 true 1 0 [(0, [(0, mkc [97] 0 1); (1, mkc [98] 0 1); (2, mkc [99] 2 1); (5, mkc [100] 3 1)])] []).
+Proof.
+  unfold wf_screen, nscreen, nrow, ncell; cbn [srows sh scx scy].
+  split; [repeat constructor; discriminate|]. split; [lia|]. split; [|lia].
+  intros y Hy. cbn [sget]. destruct (0 =? y) eqn:E0; [apply Z.eqb_eq in E0; lia|reflexivity].
+Qed.
